@@ -171,6 +171,7 @@ def vanishing_share_cases(ctx, G, only=None):
     asks again.  At least k other intact shares of the newest version stay reachable: the read must succeed."""
     ctx.correspondence("grid-corruption-oracle")
     n = ctx.n(8, 40)
+    vterms, vinfo = [], []
     for i in (range(n) if only is None else [only]):
         r = ctx.rng("vanish", i)
         seed = r.getrandbits(30)
@@ -209,6 +210,15 @@ def vanishing_share_cases(ctx, G, only=None):
             for ss in saved:
                 del ss.slot_readv
         ctx.case((seed, "vanish", i), kind="oracle:%s:share-vanishes-during-read" % fmt)
+        if out.status in ("ok", "error"):
+            # the same state in Model/MutRetry.v: one version, the shares that vanish are not good, the others are
+            vset = set((x.server, x.shnum) for x in victims)
+            gl = ["{| gs_share := {| srv := %s; shnum := %s; ver := {| seq := 1; vtag := 5; vk := %s |} |}; gs_good := %s |}" % (
+                T.N(x.server), T.N(x.shnum), T.N(k), T.boolean((x.server, x.shnum) not in vset)) for x in shs]
+            real_ok = out.status == "ok" and out.value == data
+            vterms.append("Bool.eqb (res_eqb (download_best_version (fun _ _ _ => true) %s) (Some {| seq := 1; vtag := 5; vk := %s |})) %s" % (
+                T.lst(gl), T.N(k), T.boolean(real_ok)))
+            vinfo.append(dict(case, real_read_succeeded=real_ok))
         if out.status in ("hung", "timeout"):
             ctx.oracle_fail("mutable-read-never-finished", "read during which %d share(s) vanish: %s" % (nv, out.status), case=case)
         elif out.status == "ok" and out.value != data:
@@ -221,6 +231,19 @@ def vanishing_share_cases(ctx, G, only=None):
         else:
             ctx.trace(1)
             ctx.sample(case, limit=3)
+    if vterms:
+        ctx.correspondence("download-retry-vs-model")
+        bad = ctx.coq_check(["Model.ServerMap", "Model.MutRetry"], vterms, preamble=RES_EQB, tag="c10vanish")
+        for ix in bad:
+            ctx.mismatch("download-retry-model-differs", "a read during which shares vanish %s; Model/MutRetry.download_best_version on the same shares says the opposite" % (
+                "succeeded" if vinfo[ix]["real_read_succeeded"] else "failed"), case=vinfo[ix], correspondence="download-retry-vs-model")
+        ctx.trace(len(vterms) - len(bad))
+
+
+RES_EQB = """
+Definition res_eqb (a b : option version) : bool :=
+  match a, b with Some x, Some y => version_eqb x y | None, None => true | _, _ => false end.
+"""
 
 
 def oracle_stream(ctx, G, OFF, only=None):
